@@ -134,6 +134,16 @@ func c12Scenarios(tier string) []e1lib.Scenario {
 			}
 		}
 	}
+	// deeply buffered inputs (a whole backlog fits into the channel): whatever an implementation does for roomy channels,
+	// the elements of one input stay in order
+	for _, cp := range []int{8, 32, 33, 64, 100, 1024} {
+		for _, ins := range [][]int{{3}, {2, 2}, {4}} {
+			if len(ins) == 1 && ins[0] == 4 && cp != 32 && cp != 64 {
+				continue
+			}
+			add(stage.Cfg{Stage: "join", Cap: cp, Inputs: ins, Stop: -1}, -1)
+		}
+	}
 	// element type any: the first element of the first input is a nil interface value
 	for _, ins := range [][]int{{1}, {2}, {1, 1}, {2, 1}} {
 		for cp := 0; cp <= 1; cp++ {
